@@ -217,7 +217,7 @@ impl CommonInformationEntry {
         w.write_uleb128(self.code_alignment_factor.into())?;
         w.write_sleb128(self.data_alignment_factor.into())?;
 
-        if !eh_frame && encoding.version == 1 {
+        if encoding.version == 1 {
             let register = self.return_address_register.0 as u8;
             if u16::from(register) != self.return_address_register.0 {
                 return Err(Error::ValueTooLarge);
